@@ -18,6 +18,7 @@ PY = os.path.join(ROOT, '.venv', 'bin', 'python')
 EVID = os.environ.get('VKOPF_EVIDENCE_DIR') or os.path.join(ROOT, 'evidence')   # (redirected only by development runs)
 REPLAYS = os.path.join(EVID, 'replays')
 KNOWN = os.path.join(ROOT, 'known_findings.json')
+CELL_CAP = float(os.environ.get('VKOPF_CELL_CAP', '900'))
 
 
 def _run_worker(spec, wall_cap):
@@ -71,7 +72,8 @@ def run_property(pid, tier, jobs=None, only=None):
     scale = float(os.environ.get('VKOPF_TIMEOUT_SCALE', '1'))
     tasks = []   # (kind, ob, twin, spec)
     for o in obs:
-        base = {'module': modname, 'fn': o.fn, 'cell': o.cell, 'timeout': o.timeout * scale,
+        # no cell may hog a core: whatever does not exhaust within 15 CPU-minutes is reported as inconclusive
+        base = {'module': modname, 'fn': o.fn, 'cell': o.cell, 'timeout': min(o.timeout, CELL_CAP) * scale,
                 'path_timeout': o.path_timeout, 'engine': o.engine}
         if o.main:
             tasks.append(('main', o, None, dict(base)))
